@@ -1383,6 +1383,116 @@ def entrylist_stream(tier, rng):
     return violations, cov
 
 
+# ---- (fix-I) shapes of the parameter MAPPING: "%(name)s" binds parameters['name'], whatever else the mapping holds
+PNAMES = ['rate', 'lo', 'hi', 'x', 'acct', 'since', 'k_1', 'n', 'pattern', 'i']
+
+
+def _lookalikes(name):
+    return [v for v in dict.fromkeys([name.upper(), name.capitalize(), name.title(), name[:-1] + name[-1].upper(), name.swapcase()])
+            if v != name]
+
+
+def _decoy(rng, v):
+    """a value other than v: of the same type where the pool has one, else of another type"""
+    if isinstance(v, list):
+        return [_decoy(rng, x) for x in v] + ([] if rng.random() < 0.5 else [v[0]])
+    pool = [x for x in values.POOLS[type(v)] if x != v and not (isinstance(x, D) and x.is_zero() and x.is_signed())]
+    if rng.random() < 0.15 or not pool:
+        return rng.choice([None, 'zz', 12345, D('99.5')])
+    return rng.choice(pool)
+
+
+def gen_mapping_case(rng):
+    """A statement with named placeholders (as gen_param_case draws it; names spelled with letters) executed with a mapping that
+    holds, besides the used keys, keys equal to a used name up to letter case bound to OTHER values (listed before and/or after
+    the exact key), surplus keys, keys that are not str. Oracle: the literal form and the model, as for every parameter case."""
+    while True:
+        c = gen_param_case(rng, rng.choice([ParamGen, ParamGen, ListParamGen]))
+        if isinstance(c['params'], dict) and c['nph'] >= 1:
+            break
+    used = [k for k in c['params'] if k != 'unused']
+    base = rng.sample(PNAMES, len(used)) if len(used) <= len(PNAMES) else [f'q{i}' for i in range(len(used))]
+    ren = {k: b + (k[1:] if rng.random() < 0.3 else '') for k, b in zip(used, base)}
+    ptext = re.sub(r'%\((p\d+)\)s', lambda m: f'%({ren[m.group(1)]})s', c['ptext'])
+    items, shape = [], set()
+    for k in used:
+        name, v = ren[k], c['params'][k]
+        looks = _lookalikes(name)
+        before, after = [], []
+        mode = rng.choice(['after', 'after', 'before', 'both', 'none', 'two-after'])
+        if mode in ('before', 'both'):
+            before = [rng.choice(looks)]
+        if mode in ('after', 'both'):
+            after = [rng.choice([x for x in looks if x not in before] or looks)]
+        if mode == 'two-after':
+            after = rng.sample(looks, min(2, len(looks)))
+        shape.add('lookalike-' + mode)
+        items += [(x, _decoy(rng, v)) for x in before] + [(name, v)] + [(x, _decoy(rng, v)) for x in after]
+    extras = []
+    if rng.random() < 0.5:
+        extras += [(rng.choice(['unused', 'zz', 'p', 'RATE9', '']), rng.choice([1, 'u', None]))]
+        shape.add('surplus-key')
+    if rng.random() < 0.4:
+        extras += [(rng.choice([0, 7, None, 3]), rng.choice([5, 'w']))]
+        shape.add('non-str-key')
+    for e in extras:
+        items.insert(rng.randint(0, len(items)), e)
+    params = {}
+    for k, v in items:
+        params.setdefault(k, v)
+    d = dict(c, ptext=ptext, params=params)
+    d['mapping_shape'] = sorted(shape)
+    return d
+
+
+def mapping_shape_stream(tier, rng):
+    cases = [gen_mapping_case(rng) for _ in range(300 if tier == 'quick' else 5000)]
+    outs = core.pmap(run_param_impl, cases)
+    mc = [c for c in cases if not c['wrap']]
+    ms = dict(zip([id(c) for c in mc], core.coq_eval('c09m', IMPORTS, [param_model_expr(c) for c in mc], shard=200)))
+    hist = {'statements_that_ran': 0, 'keys_in_mapping': {}, 'used_names': {}}
+    violations = []
+    for c, (wp, wl) in zip(cases, outs):
+        for sh in c['mapping_shape']:
+            hist[sh] = hist.get(sh, 0) + 1
+        hist['statements_that_ran'] += wp[0] == 0
+        hist['keys_in_mapping'][len(c['params'])] = hist['keys_in_mapping'].get(len(c['params']), 0) + 1
+        nu = len(set(re.findall(r'%\((\w+)\)s', c['ptext'])))
+        hist['used_names'][nu] = hist['used_names'].get(nu, 0) + 1
+        m = ms.get(id(c))
+        bad = None
+        if wp != wl:
+            bad = f'with parameters {wp} but with the values written as literals ({c["ltext"]}) {wl}'
+        elif m is not None and wp != m:
+            bad = f'implementation {wp} but model with the values as constants {m}'
+        if bad and len(violations) < 3:
+            small = shrink_mapping_case(c) if wp != wl else c
+            wp, wl = run_param_impl(small)
+            if small is not c:
+                bad = f'with parameters {wp} but with the values written as literals ({small["ltext"]}) {wl}'
+            sig = 'mapping:' + small['ptext'] + ' ' + repr(small['params']) + ' rows=' + repr(small['rows'])
+            violations.append(core.Violation('params-as-literals', f'{small["ptext"]} {small["params"]!r} over {small["rows"]}: {bad}',
+                                             param_record(small), signature=sig))
+    return violations, {'mapping_shape_cases': len(cases), 'mapping_shape_histogram': hist}
+
+
+def shrink_mapping_case(c):
+    """drop keys of the mapping the statement does not name, then rows, while parameters and literals still disagree"""
+    def fails(x):
+        a, b = run_param_impl(x)
+        return a != b
+    used = set(re.findall(r'%\((\w+)\)s', c['ptext']))
+    for k in [k for k in c['params'] if k not in used]:
+        x = dict(c, params={kk: v for kk, v in c['params'].items() if kk != k})
+        if fails(x):
+            c = x
+    for i in reversed(range(len(c['rows']))):
+        x = dict(c, rows=c['rows'][:i] + c['rows'][i + 1:])
+        if len(x['rows']) >= 1 and fails(x):
+            c = x
+    return c
+
+
 def run(tier, rng):
     violations = []
     n_p = 700 if tier == 'quick' else 15000
@@ -1480,6 +1590,8 @@ def run(tier, rng):
     violations.extend(rviol)
     eviol, ecov = entrylist_stream(tier, rng)        # (fix-F) drawn last: the streams above see the random numbers they saw before
     violations.extend(eviol)
+    mviol, mcov = mapping_shape_stream(tier, rng)    # (fix-I) drawn after every other stream
+    violations.extend(mviol)
     nph_hist, folded_n, hist_ops = {}, 0, {}
     for c, (wp, wl) in zip(pc, p_impl):
         nph_hist[c['nph']] = nph_hist.get(c['nph'], 0) + 1
@@ -1533,8 +1645,8 @@ def run(tier, rng):
     nontrivial = len({c['ptext'] + repr(c['params']) for c in pc if c['nph'] >= 2}) + \
         len({show_history(h) for h in hs if sum(o[0] in ('exec_ast', 'exec_many') for o in h) >= 2})
     cov = {
-        'evaluations': len(pc) + len(fc) + len(hs) + nwork + len(bc) + len(sc) + len(lh) + len(scases) + len(lc) + rcov['rejected_statement_histories'] + ecov['entry_list_histories'],
-        **ecov, 'list_parameter_cases': len(lc), 'list_parameter_histogram': list_hist, 'ledger_param_statements': nlp, **rcov,
+        'evaluations': len(pc) + len(fc) + len(hs) + nwork + len(bc) + len(sc) + len(lh) + len(scases) + len(lc) + rcov['rejected_statement_histories'] + ecov['entry_list_histories'] + mcov['mapping_shape_cases'],
+        **ecov, **mcov, 'list_parameter_cases': len(lc), 'list_parameter_histogram': list_hist, 'ledger_param_statements': nlp, **rcov,
         'binding_order_cases': len(bc), 'same_cursor_histories': len(sc), 'ledger_histories': len(lh),
         'ledger_lookup_histories': len(lkh), 'ledger_lookup_statements': len(LOOKUP_STATEMENTS), 'ledger_reader_statements': len(READER_STATEMENTS),
         'ledger_history_lookup_then_reader_pairs': sum(1 for h in lh for x, y in zip(h, h[1:]) if nst <= x < nst + len(LOOKUP_STATEMENTS) <= y),
@@ -1560,7 +1672,9 @@ def run(tier, rng):
                 'one shared cursor, the shell route, a statement parsed once and executemany: every step = the step alone on a fresh '
                 'connection in a fresh process over the same original list, the caller\'s list keeps its objects in their order, the '
                 'value-based fingerprint of the tables and of the caller\'s list is unchanged, and the un-ordered register is the fold of '
-                'the list in list order; non-trivial = distinct '
+                'the list in list order; (a3) named-placeholder statements executed with a mapping that also holds keys equal to a used '
+                'name up to letter case bound to other values (before / after the exact key), surplus keys and keys that are not str, vs '
+                'the literal form and the model; non-trivial = distinct '
                 'statement with >=2 placeholders or history with >=2 executions of a stored/parsed-once statement',
         'samples': [pc[0]['ptext'] + ' ' + repr(pc[0]['params']), 'SELECT ' + fc[0]['littext'], show_history(hs[2])],
         'traces_validated_against_impl': len(hs), 'placeholder_count_histogram': nph_hist,
